@@ -62,6 +62,10 @@ type caseCfg struct {
 	yield      int  // permille of hook / wrapper points at which the goroutine yields or sleeps a little
 	seed       uint64
 	faults     []faultSpec
+	// stopSibling (request word `ps`): while the first message is being dispatched to the subscriptions of the first fan-out topic
+	// (dispatcher held at hook gochannel.dispatch.next between the first and the second subscription) the branch handler that
+	// already got it is stopped with Handler.Stop(); the surviving branches must still get every message
+	stopSibling bool
 }
 
 func b01(x bool) string {
@@ -117,7 +121,11 @@ func (c caseCfg) String() string {
 		}
 		fs = strings.Join(xs, ",")
 	}
-	return fmt.Sprintf("pl %s %d b%dk%sp%s r%sd%st%s %d %d %s", shapeString(c.shape, c.widths...), c.nmsgs, c.buf, b01(c.blocking), b01(c.persistent),
+	word := "pl"
+	if c.stopSibling {
+		word = "ps"
+	}
+	return fmt.Sprintf("%s %s %d b%dk%sp%s r%sd%st%s %d %d %s", word, shapeString(c.shape, c.widths...), c.nmsgs, c.buf, b01(c.blocking), b01(c.persistent),
 		b01(c.perStage), b01(c.decorator), b01(c.tap), c.yield, c.seed, fs)
 }
 
@@ -153,9 +161,10 @@ func parseShape(s string) ([][]int, []int, error) {
 func parseCfg(line string) (caseCfg, error) {
 	f := strings.Fields(line)
 	var c caseCfg
-	if len(f) < 8 || f[0] != "pl" {
+	if len(f) < 8 || (f[0] != "pl" && f[0] != "ps") {
 		return c, fmt.Errorf("bad request %q", line)
 	}
+	c.stopSibling = f[0] == "ps"
 	var err error
 	if c.shape, c.widths, err = parseShape(f[1]); err != nil {
 		return c, err
@@ -242,10 +251,30 @@ func (c caseCfg) validate() error {
 			return fmt.Errorf("stage %d: multi-output stages are supported in chains only", s)
 		}
 	}
+	if c.stopSibling {
+		if c.fanOutStage() < 0 || c.blocking || c.perStage || c.nmsgs < 1 || c.leaves() > 1 {
+			return errors.New("ps needs a fan-out topic with >= 2 subscribed handlers, one Router, non-blocking GoChannel, >= 1 message")
+		}
+		for _, f := range c.faults {
+			if f.stage <= c.fanOutStage() {
+				return errors.New("ps: faults only behind the fan-out stage")
+			}
+		}
+	}
 	if c.nmsgs < 0 || c.nmsgs > 1000 {
 		return errors.New("bad message count")
 	}
 	return nil
+}
+
+// fanOutStage is the first stage whose output topic has several subscribed handlers (-1: none).
+func (c caseCfg) fanOutStage() int {
+	for s, row := range c.shape {
+		if len(row) >= 2 && row[len(row)-1] < len(c.shape) {
+			return s
+		}
+	}
+	return -1
 }
 
 func (c caseCfg) outTopic(s int) string {
@@ -289,7 +318,8 @@ type rec struct {
 	hcalls   []int
 	pcalls   []int
 	used     []bool // per scripted fault
-	live     int    // obligations in flight (= tokens of the model)
+	liveBy   []int  // obligations in flight per owing stage (= tokens of the model)
+	stopped  []bool // stages whose handler the harness stopped: what they owe does not count any more
 	srcDone  int
 	watchers int
 	stats    map[string]int
@@ -299,6 +329,24 @@ type rec struct {
 	done   chan struct{}
 
 	arrivals uint64
+}
+
+// owe adds k obligations to every subscription of the output topic of stage st (k < 0 takes them back). r.mu held.
+func (r *rec) owe(st, k int) {
+	for _, t := range r.cfg.shape[st] {
+		r.liveBy[t] += k
+	}
+}
+
+// live counts the obligations of the stages that are still running. r.mu held.
+func (r *rec) live() int {
+	n := 0
+	for t, k := range r.liveBy {
+		if !r.stopped[t] {
+			n += k
+		}
+	}
+	return n
 }
 
 func (r *rec) log(s string) {
@@ -424,7 +472,7 @@ func (r *rec) watch(inv, stage, lin int, m *message.Message) {
 	case <-m.Acked():
 		r.mu.Lock()
 		r.log(fmt.Sprintf("st.%d.%d.%d.ack", stage, lin, inv))
-		r.live--
+		r.liveBy[stage]--
 	case <-m.Nacked():
 		r.mu.Lock()
 		r.log(fmt.Sprintf("st.%d.%d.%d.nack", stage, lin, inv))
@@ -498,7 +546,9 @@ type faultPub struct {
 	r     *rec
 }
 
-func (p *faultPub) Close() error { return p.inner.Close() }
+// Close does not close the shared Pub/Sub: a Router handler closes its publisher when it stops (handler.run), and a stopped
+// sibling handler must not take the GoChannel of the whole pipeline with it. The harness closes the Pub/Sub itself at the end.
+func (p *faultPub) Close() error { return nil }
 
 func (p *faultPub) Publish(topic string, msgs ...*message.Message) error {
 	r := p.r
@@ -529,7 +579,7 @@ func (p *faultPub) Publish(topic string, msgs ...*message.Message) error {
 	if f == "" && r.refusalFor(st, ir.ord, positions) {
 		f = "px"
 	}
-	fan := len(r.cfg.shape[st]) * len(msgs)
+	fan := len(msgs)
 	switch f {
 	case "pe", "px", "pw":
 		r.log("ft." + id + "." + f)
@@ -547,13 +597,13 @@ func (p *faultPub) Publish(topic string, msgs ...*message.Message) error {
 		panic("scripted publisher panic")
 	case "pa":
 		r.log("ft." + id + ".pa")
-		r.live += fan
+		r.owe(st, fan)
 		r.mu.Unlock()
 		r.yield()
 		err := p.inner.Publish(topic, msgs...)
 		r.mu.Lock()
 		if err != nil {
-			r.live -= fan
+			r.owe(st, -fan)
 			r.stats["inner-publish-error"]++
 		}
 		r.log("pr." + id + ".err")
@@ -563,13 +613,13 @@ func (p *faultPub) Publish(topic string, msgs ...*message.Message) error {
 	for _, j := range positions {
 		r.log(fmt.Sprintf("pi.%s.%d", id, j))
 	}
-	r.live += fan
+	r.owe(st, fan)
 	r.mu.Unlock()
 	r.yield()
 	err := p.inner.Publish(topic, msgs...)
 	r.mu.Lock()
 	if err != nil {
-		r.live -= fan
+		r.owe(st, -fan)
 		r.stats["inner-publish-error"]++
 		r.log("pr." + id + ".err")
 	} else {
@@ -601,9 +651,36 @@ func runCase(c caseCfg) result {
 	t0 := time.Now()
 	n := len(c.shape)
 	r := &rec{cfg: c, invs: map[int]*invRec{}, hcalls: make([]int, n), pcalls: make([]int, n), used: make([]bool, len(c.faults)),
-		stats: map[string]int{}, notify: make(chan struct{}, 1), done: make(chan struct{})}
+		stats: map[string]int{}, notify: make(chan struct{}, 1), done: make(chan struct{}), liveBy: make([]int, n+1), stopped: make([]bool, n+1)}
 	base := runtime.NumGoroutine()
-	message.SetVerifHook(func(name string, args ...string) { r.yield() })
+	// ps: hold the dispatcher of the fan-out topic at its second arrival (= between the first and the second subscription
+	// of the first dispatch); note when the unsubscribe goroutine is about to remove a subscription of that topic
+	fanTopic := ""
+	if c.stopSibling {
+		fanTopic = c.outTopic(c.fanOutStage())
+	}
+	parked, release, removing := make(chan struct{}), make(chan struct{}), make(chan struct{})
+	var dispatchArrivals, removals int32
+	message.SetVerifHook(func(name string, args ...string) {
+		if fanTopic != "" && len(args) > 0 && args[0] == fanTopic {
+			switch name {
+			case "gochannel.dispatch.next":
+				if atomic.AddInt32(&dispatchArrivals, 1) == 2 {
+					close(parked)
+					select {
+					case <-release:
+					case <-time.After(livenessBound):
+					}
+					return
+				}
+			case "gochannel.unsubscribe.before_remove":
+				if atomic.AddInt32(&removals, 1) == 1 {
+					close(removing)
+				}
+			}
+		}
+		r.yield()
+	})
 	defer message.SetVerifHook(nil)
 
 	logger := watermill.NopLogger{}
@@ -639,7 +716,13 @@ func runCase(c caseCfg) result {
 			lin := lineage(m)
 			r.mu.Lock()
 			r.log(fmt.Sprintf("sk.%d", lin))
-			r.live--
+			if c.stopSibling {
+				// which branch handed it to the final topic
+				if inv, err := strconv.Atoi(m.Metadata.Get("inv")); err == nil && r.invs[inv] != nil {
+					r.log(fmt.Sprintf("sb.%d.%d", lin, r.invs[inv].stage))
+				}
+			}
+			r.liveBy[n]--
 			r.stats["sink"]++
 			r.mu.Unlock()
 			m.Ack()
@@ -663,6 +746,7 @@ func runCase(c caseCfg) result {
 		return rt
 	}
 	var rt *message.Router
+	var handlers []*message.Handler
 	for s := 0; s < n; s++ {
 		if c.perStage || rt == nil {
 			rt = newRouter()
@@ -671,7 +755,7 @@ func runCase(c caseCfg) result {
 		if !c.decorator {
 			pub = &faultPub{inner: ps, r: r}
 		}
-		rt.AddHandler("s"+strconv.Itoa(s), c.inTopic(s), ps, c.outTopic(s), pub, r.handler(s))
+		handlers = append(handlers, rt.AddHandler("s"+strconv.Itoa(s), c.inTopic(s), ps, c.outTopic(s), pub, r.handler(s)))
 	}
 	var runs sync.WaitGroup
 	for _, x := range routers {
@@ -697,14 +781,14 @@ func runCase(c caseCfg) result {
 		stamp(m, 0)
 		r.mu.Lock()
 		r.log(fmt.Sprintf("sc.%d", l))
-		r.live++
+		r.liveBy[0]++
 		r.mu.Unlock()
 		r.yield()
 		err := ps.Publish("src", m)
 		r.mu.Lock()
 		if err != nil {
 			r.log(fmt.Sprintf("sr.%d.err", l))
-			r.live--
+			r.liveBy[0]--
 		} else {
 			r.log(fmt.Sprintf("sr.%d.ok", l))
 		}
@@ -712,7 +796,59 @@ func runCase(c caseCfg) result {
 		r.mu.Unlock()
 		r.wake()
 	}
-	if splitmix(c.seed)&1 == 0 {
+	if c.stopSibling {
+		go func() {
+			// the first message alone; its dispatcher stops between the first and the second subscription of the fan-out topic
+			go publishOne(0)
+			victim := -1
+			select {
+			case <-parked:
+				// exactly one branch has been handed the message: wait for its handler to start, then stop that handler
+				for i := 0; i < 5000 && victim < 0; i++ {
+					r.mu.Lock()
+					for _, ir := range r.invs {
+						for _, t := range c.shape[c.fanOutStage()] {
+							if ir.stage == t {
+								victim = t
+							}
+						}
+					}
+					r.mu.Unlock()
+					if victim < 0 {
+						time.Sleep(time.Millisecond)
+					}
+				}
+			case <-time.After(5 * time.Second):
+			}
+			if victim >= 0 {
+				r.mu.Lock()
+				r.log(fmt.Sprintf("stop.%d", victim))
+				r.stopped[victim] = true
+				r.stats["sibling-stopped"]++
+				r.mu.Unlock()
+				handlers[victim].Stop()
+				select {
+				case <-removing:
+					// the unsubscribe goroutine holds the subscribers lock; a Publish to a topic nobody listens to returns only
+					// after it has removed the subscription and released the lock
+					_ = ps.Publish("barrier", message.NewMessage("barrier", nil))
+					r.mu.Lock()
+					r.stats["sibling-removed-during-dispatch"]++
+					r.mu.Unlock()
+				case <-time.After(5 * time.Second):
+				}
+			} else {
+				r.mu.Lock()
+				r.stats["sibling-stop-skipped"]++
+				r.mu.Unlock()
+			}
+			close(release)
+			r.wake()
+			for l := 1; l < c.nmsgs; l++ {
+				publishOne(l)
+			}
+		}()
+	} else if splitmix(c.seed)&1 == 0 {
 		go func() {
 			for l := 0; l < c.nmsgs; l++ {
 				publishOne(l)
@@ -731,7 +867,7 @@ func runCase(c caseCfg) result {
 wait:
 	for {
 		r.mu.Lock()
-		q := r.live == 0 && r.srcDone == c.nmsgs && r.watchers == 0
+		q := r.live() == 0 && r.srcDone == c.nmsgs && r.watchers == 0
 		r.mu.Unlock()
 		if q {
 			break
@@ -1022,6 +1158,25 @@ func main() {
 			}
 		}
 		out.Add("wall_ms.exhaustive3", int(time.Since(t1).Milliseconds()))
+	}
+	// 2b. a sibling branch is stopped (Handler.Stop) while the first message is being dispatched to a fan-out topic with 2..3 subscribed
+	//     handlers: the surviving branches must get every message (the at-least-once clause for every chain whose handlers keep running)
+	nstop := 24
+	if a.Thorough() {
+		nstop = 300
+	}
+	stopShapes := [][][]int{{{1, 2, 3}, {4}, {4}, {4}}, {{1, 2, 3}, {4}, {4}, {4}}, {{1, 2}, {3}, {3}}, {{1}, {2, 3, 4}, {5}, {5}, {5}}}
+	for i := 0; i < nstop; i++ {
+		c := caseCfg{shape: stopShapes[i%len(stopShapes)], nmsgs: 1 + rng.Intn(3), stopSibling: true}
+		randomWiring(rng, &c)
+		c.blocking, c.perStage = false, false
+		for k := rng.Intn(3); k > 0; k-- {
+			st := c.fanOutStage() + 1 + rng.Intn(len(c.shape)-c.fanOutStage()-1)
+			c.faults = append(c.faults, faultSpec{kind: kinds[rng.Intn(len(kinds))], stage: st, call: 1 + rng.Intn(3)})
+		}
+		if !emit(out, c, "stop-sibling") {
+			return
+		}
 	}
 	// 3. seeded random longer fault sequences on pipelines of up to 4 stages with fan-out / fan-in, yield injection
 	nrand := 200
